@@ -337,7 +337,8 @@ fn linear_all(ctx: &Ctx, sink: &mut Sink) {
     }
     // lunar months: ordinal through the month walk is covered by C03; here the group laws and, on far samples,
     // steps of up to +-3000 months (the walk of C03 never takes more than a few hundred at once)
-    let ly = rng.range(500, 9700);
+    // (two far steps of up to 3000 months move at most 486 years: the start stays that far inside the range)
+    let ly = if far { rng.range(1000, 9400) } else { rng.range(500, 9700) };
     let lm = rng.range(1, 12);
     let (ma, mb) = if far { (rng.range(-3000, 3000), rng.range(-3000, 3000)) } else { (pick_n(&mut rng, 40), pick_n(&mut rng, 40)) };
     linc(sink, 116, catch_iso(|| LunarMonth::from_ym(ly as isize, lm as isize)), ma, mb, |x, n| x.next(n as isize),
